@@ -420,6 +420,7 @@ class C29(Prop):
     # different authority than the browser, which gets the raw string
     ENC = ['%2F', '%2f', '%23', '%3F', '%3f', '%5C', '%5c', '%40', '%3A', '%3a', '%252F', '%2523', '%2540', '%25252F', '%09', '%0a', '%00',
            '%2E', '%20']
+    AFFIX = '0123456789:.-@/\\%'     # what may be glued to an allowed host: digits (ports without colon), separators, escapes
     MUT_CHARS = list('/\\@:?#.%[]- \t\n\r\x00\x1fhaisAZ09+;&=') + ['。', '．', '｡', 'é', '℀', '／', '​', '\U0001f600']
 
     def _host_variant(self, rng, hosts, domain):
@@ -429,7 +430,11 @@ class C29(Prop):
             return h
         if r < 0.55:
             return rng.choice(self.FOREIGN)
-        if r < 0.67:
+        if r < 0.72:
+            # an allowed host with a short affix over the alphabet of port digits and separators, appended or prepended
+            aff = ''.join(rng.choice(self.AFFIX) for _ in range(rng.choice([1, 1, 2, 2, 3])))
+            return h + aff if rng.random() < 0.7 else aff + h
+        if r < 0.80:
             e, e2 = rng.choice(self.ENC), rng.choice(self.ENC)
             f = rng.choice(['evil.com', 'evil.com', 'EVIL.com', '127.1', 'evil.com:8443', h + '.evil.com'])
             return rng.choice([
@@ -475,8 +480,19 @@ class C29(Prop):
             u = ''.join(rng.choice(self.MUT_CHARS) for _ in range(rng.randint(0, 8)))
         return u
 
+    def _affix_cases(self):
+        """exhaustive: every string of length <= 2 over AFFIX appended / prepended to two of the allowed hosts, for both schemes"""
+        import itertools
+        affixes = [''.join(t) for k in (1, 2) for t in itertools.product(self.AFFIX, repeat=k)]
+        for host in ('auth.hail.is', 'ci.hail.is'):
+            for scheme in ('https', 'http'):
+                for aff in affixes:
+                    for netloc in (host + aff, aff + host):
+                        yield {'domain': 'hail.is', 'base_path': None, 'url': f'{scheme}://{netloc}/x'}
+
     def cases(self, rng, n, tier):
         yield from self._flow_cases(rng)
+        yield from self._affix_cases()
         for _ in range(n):
             domain, bp = rng.choice(self.CONFIGS)
             yield {'domain': domain, 'base_path': bp, 'url': self.gen_url(rng, domain, bp)}
